@@ -175,4 +175,25 @@ CmdLMove(s, now, a) ==
          IN One(RStr(e), PutList(s1, dst, d1),
                 "lmove" \o (IF src = dst THEN ".rotate" ELSE IF Has(s, dst) THEN ".existing_dst" ELSE ".new_dst")
                         \o (IF rest = <<>> /\ src # dst THEN ".emptied_src" ELSE ""))
+
+\* ---- BLPOP / BRPOP key [key ...] timeout ----
+\* Sequential meaning of a blocking pop that has RETURNED: either it popped from the first key (in argument order)
+\* holding a non-empty list, or - reply nil - every key was missing/empty at its linearization point (it timed out).
+\* Promptness (how long it may take) is checked on the real clock by harness/cmd/blockpop.
+RECURSIVE FirstNonEmpty(_, _, _)
+FirstNonEmpty(s, a, i) == IF i >= Len(a) THEN 0 ELSE IF HasT(s, a[i], "list") THEN i ELSE FirstNonEmpty(s, a, i + 1)
+CmdBPop(s, now, a, side) ==
+  LET nm == IF side = "l" THEN "blpop" ELSE "brpop" IN
+  IF Len(a) < 3 THEN One(RErr, s, nm \o ".arity")
+  ELSE LET p == ParseDec(a[Len(a)]) IN
+    IF ~p.ok THEN One(RErr, s, nm \o ".badtimeout")
+    ELSE IF p.neg THEN Two(One(RErr, s, nm \o ".negative_timeout"), One(RNil, s, nm \o ".negative_timeout.nil"))
+    ELSE LET i == FirstNonEmpty(s, a, 2)
+             wrong == \E j \in 2..(Len(a) - 1) : WrongFor(s, a[j], "list") /\ (i = 0 \/ j < i) IN
+         IF i = 0 THEN (IF wrong THEN Two(One(RWrong, s, nm \o ".wrongtype"), One(RNil, s, nm \o ".wrongtype_ignored.timeout")) ELSE One(RNil, s, nm \o ".timeout"))
+         ELSE LET q == Val(s, a[i])
+                  e == IF side = "l" THEN q[1] ELSE q[Len(q)]
+                  rest == IF side = "l" THEN Tail(q) ELSE Take(q, Len(q) - 1)
+                  done == One(RArr(<<RStr(a[i]), RStr(e)>>), PutList(s, a[i], rest), nm \o ".popped" \o (IF i > 2 THEN ".later_key" ELSE "") \o (IF rest = <<>> THEN ".emptied" ELSE ""))
+              IN IF wrong THEN Two(done, One(RWrong, s, nm \o ".wrongtype")) ELSE done
 =============================================================================
